@@ -24,3 +24,19 @@ func debugReads() {
 	}
 	os.Exit(0)
 }
+
+// debugValues prints the canonical value terms of CellBytes per specialisation (developer aid).
+func debugValues(args []string) {
+	w := loadWorld("/repo", nil, "")
+	a := newA(w, "dbg", "quick")
+	cd := resolveCodec(a, "dbg")
+	for _, s := range []spec{{1, -1}, {2, -1}, {9, -1}, {3, -1}, {8, -1}, {4, -1}, {5, -1}, {13, -1}, {16, 2<<8 | 3}, {247, 1}, {247, 2}, {254, 247<<8 | 2}, {254, 248<<8 | 3}, {248, 3},
+		{10, -1}, {11, -1}, {12, -1}, {7, -1}, {17, 0}, {17, 3}, {18, 4}, {19, 5}, {15, 100}, {15, 300}, {254, 0xfe14}, {252, 2}, {255, 4}, {245, 4}, {246, 14<<8 | 4}} {
+		rv := cd.specVal(s)
+		fmt.Printf("%s %s\n", cd.typeName[s.Typ], s)
+		for _, ret := range successReturns(rv, 2) {
+			fmt.Printf("   %-30s %s  len=%s\n", valueCond(cd, rv, ret), valueTerm(cd, rv, ret.Results[0]), lenTerm(rv, ret.Results[1], cd.valFn))
+		}
+	}
+	os.Exit(0)
+}
